@@ -717,7 +717,8 @@ def r11_variants_delegate_once(a, tier):
         floor=2,
     )
     ap = a.p.func('tatsu.parproc.pmap.active_pmap')
-    nested = {f.name: f for f in a.p.functions.values() if f.parent is ap}
+    # the mapping variants: the nested GENERATOR functions (a nested plain helper such as `worker_count(max_workers)` maps nothing)
+    nested = {f.name: f for f in a.p.functions.values() if f.parent is ap and any(isinstance(n, (ast.Yield, ast.YieldFrom)) for n in walk_no_defs(f.node))}
     # whatever form the selection takes (`if ...: return a` / `return a if ... else b` / a table): the nested functions named in a returned expression
     returned = sorted({x.id for n in walk_no_defs(ap.node) if isinstance(n, ast.Return) and n.value is not None
                        for x in ast.walk(n.value) if isinstance(x, ast.Name) and x.id in nested})
